@@ -105,7 +105,7 @@ func kernelCases(c *Ctx) {
 		}
 		c.D.Evaluations++
 		c.Count("kernel:xform-" + kind)
-		c.Case(fmt.Sprintf("xform %s %s %s", kind, hex.EncodeToString(pred), coefStr(coeffs)), hex.EncodeToString(out))
+		addCase(fmt.Sprintf("xform %s %s %s", kind, hex.EncodeToString(pred), coefStr(coeffs)), hex.EncodeToString(out))
 	}
 	// inverse WHT
 	for i := 0; i < n/2; i++ {
@@ -128,7 +128,7 @@ func kernelCases(c *Ctx) {
 		}
 		c.D.Evaluations++
 		c.Count("kernel:wht-" + kind)
-		c.Case("wht "+kind+" "+coefStr(coeffs), strings.Join(res, ","))
+		addCase("wht "+kind+" "+coefStr(coeffs), strings.Join(res, ","))
 	}
 	// 4x4 predictors, every mode, table and direct dispatch
 	for i := 0; i < n; i++ {
@@ -159,7 +159,7 @@ func kernelCases(c *Ctx) {
 		}
 		c.D.Evaluations++
 		c.Count(fmt.Sprintf("kernel:pred4-mode%d", mode))
-		c.Case(fmt.Sprintf("pred4 %s %d %s", kind, mode, hex.EncodeToString(edge)), hex.EncodeToString(out))
+		addCase(fmt.Sprintf("pred4 %s %d %s", kind, mode, hex.EncodeToString(edge)), hex.EncodeToString(out))
 	}
 	// 16x16 and 8x8 predictors incl. the DC variants at frame borders (dispatched table entries)
 	for i := 0; i < n; i++ {
@@ -212,7 +212,7 @@ func kernelCases(c *Ctx) {
 		}
 		c.D.Evaluations++
 		c.Count(fmt.Sprintf("kernel:pred%d-mode%d", sz, mode))
-		c.Case(fmt.Sprintf("predblk %d %d %d %d %s %s %d", sz, mode, b2i(ha), b2i(hl), hex.EncodeToString(above), hex.EncodeToString(left), corner),
+		addCase(fmt.Sprintf("predblk %d %d %d %d %s %s %d", sz, mode, b2i(ha), b2i(hl), hex.EncodeToString(above), hex.EncodeToString(left), corner),
 			hex.EncodeToString(out))
 	}
 	// fancy upsampler + YUV->RGB, one pair of rows (opaque output), portable and dispatched
@@ -264,7 +264,7 @@ func kernelCases(c *Ctx) {
 		}
 		c.D.Evaluations++
 		c.Count("kernel:upsample-" + kind)
-		c.Case(fmt.Sprintf("ups %s %s %s %s %s %s %s", kind, hex.EncodeToString(ty), byHex, hex.EncodeToString(tu), hex.EncodeToString(tv),
+		addCase(fmt.Sprintf("ups %s %s %s %s %s %s %s", kind, hex.EncodeToString(ty), byHex, hex.EncodeToString(tu), hex.EncodeToString(tv),
 			hex.EncodeToString(bu), hex.EncodeToString(bv)), res)
 	}
 	// precomputeFilterStrengths: complete sweep of frame level 0..63 (inside each case) x sharpness 0..7 x
@@ -304,7 +304,7 @@ func kernelCases(c *Ctx) {
 					}
 					c.D.Evaluations++
 					c.Count("kernel:filter-strength-table")
-					c.Case(fmt.Sprintf("fstr %d %d %d %d %d %d %d %d %d %d %d", b2i(simple), sharp, b2i(dc.use), dc.ref0, dc.mod0,
+					addCase(fmt.Sprintf("fstr %d %d %d %d %d %d %d %d %d %d %d", b2i(simple), sharp, b2i(dc.use), dc.ref0, dc.mod0,
 						b2i(sc.use), b2i(sc.abs), sc.v[0], sc.v[1], sc.v[2], sc.v[3]), strings.TrimSpace(sb.String()))
 				}
 			}
@@ -372,7 +372,7 @@ func kernelCases(c *Ctx) {
 		}
 		c.D.Evaluations++
 		c.Count(fmt.Sprintf("kernel:boolenc-mode%d", mode))
-		c.Case(sb.String(), hex.EncodeToString(out)+" "+rt)
+		addCase(sb.String(), hex.EncodeToString(out)+" "+rt)
 	}
 	// clip tables: complete sweep
 	s1, s2, c1, a0 := webp.VerifDspClipTables()
